@@ -22,16 +22,28 @@ Proof. exact C11_script. Qed.
 Print Assumptions C11_script_concat.
 
 (** Without a separator the loop reports "end of statement": a statement cannot absorb its
-    successor through the loop (END excepted: the loop stops there, by design of BEGIN..END). *)
+    successor through the loop.  (Before /repo's fix of the top-level END break the public loop
+    also stopped in front of END and silently dropped the rest of the input; only the body of a
+    BEGIN .. END block does that now, [C11_block_stops_at_end].) *)
 Theorem C11_separator_required : forall A (stmt : M A) d ts a rest s fuel,
   Local A stmt d ts a -> starts_stmt ts ->
   toks s = ts ++ rest -> idx s = 0%nat ->
-  stmt_end (first_tok rest) = false -> is_kw (s2l "END") (peek_from rest 0) = false ->
+  stmt_end (first_tok rest) = false ->
   (1 < fuel)%nat ->
   (forall pre r s', toks s' = pre ++ ts ++ r -> stmt d (set_idx (length pre) s') = (Ok a, set_idx (length pre + length ts) s')) ->
   fst (parse_statements fuel stmt d s) = Err (Syntax (expected_msg (s2l "end of statement") (peek_from rest 0))).
 Proof. exact C11_needs_separator. Qed.
 Print Assumptions C11_separator_required.
+
+Theorem C11_block_stops_at_end : forall A (stmt : M A) d ts a rest s fuel,
+  Local A stmt d ts a -> starts_stmt ts ->
+  toks s = ts ++ rest -> idx s = 0%nat ->
+  is_kw (s2l "END") (peek_from rest 0) = true ->
+  (1 < fuel)%nat ->
+  (forall pre r s', toks s' = pre ++ ts ++ r -> stmt d (set_idx (length pre) s') = (Ok a, set_idx (length pre + length ts) s')) ->
+  fst (parse_statement_block fuel stmt d s) = Ok [a].
+Proof. exact block_stops_at_end. Qed.
+Print Assumptions C11_block_stops_at_end.
 
 (** The loop itself keeps the parser state (depth, option, state) whatever the statements do. *)
 Theorem C11_loop_frame : forall okm oke A (stmt : M A) fuel, Iface okm oke A stmt -> Frame (parse_statements fuel stmt).
